@@ -115,6 +115,24 @@ func init() {
 		}
 		c.Case("cond_cell", fields...)
 	})
+	// partial_cell: <element> <attribute> <static prefix>:  <E A="PRE{{.}}">  with each enumerated value:
+	// was the template accepted by the analysis?  The driver refuses acceptance when the REVIEWED policy
+	// gives (E, A) an enumerated class ("static partial values are refused in enumerated contexts")
+	reg("partial_cell", 3, func(c *caseWriter, in []string) {
+		text := "<" + in[0] + " " + in[1] + `="` + in[2] + `{{.}}">`
+		accepted := "refused"
+		detail := ""
+		for _, v := range []string{"async", "auto", "ltr", "lazy", "eager", "_blank", "_self", "x"} {
+			r := runTemplate(text, "", v, false)
+			if r.outcome == "ok" || r.outcome == "execerr" {
+				accepted = "accepted"
+				if r.outcome == "ok" && detail == "" {
+					detail = r.out
+				}
+			}
+		}
+		c.Case("partial_cell", hx(in[0]), hx(in[1]), hx(in[2]), accepted, hx(detail))
+	})
 	// sc_attr04: the engine's context choice for (element, attribute, normalised rel) through the hook,
 	// judged against the reviewed policy by the driver
 	reg("sc_attr04", 3, func(c *caseWriter, in []string) {
@@ -217,6 +235,13 @@ func runC04(c *caseWriter) (string, bool, map[string]int) {
 				emit(c, "sc_attr04", e, a, r)
 				emit(c, "sc_attr", e, a, r)
 			}
+		}
+	}
+	// static prefixes in the enumerated attributes of HTML (and in two that are not, as controls)
+	for _, ea := range [][2]string{{"script", "async"}, {"div", "dir"}, {"p", "dir"}, {"bdo", "dir"}, {"input", "dir"}, {"img", "loading"}, {"iframe", "loading"},
+		{"a", "target"}, {"area", "target"}, {"form", "target"}, {"base", "target"}, {"div", "title"}, {"a", "href"}} {
+		for _, pre := range []string{"un", "x", " ", "_", "la", "auto ", "_blank x", "&#32;"} {
+			emit(c, "partial_cell", ea[0], ea[1], pre)
 		}
 	}
 	// upper / mixed case names reach the tables lower-cased
